@@ -5,6 +5,7 @@ package c13
 
 import (
 	"fmt"
+	"os"
 	"strings"
 	"testing"
 	"unicode"
@@ -521,4 +522,59 @@ func FuzzWrap(f *testing.F) {
 		c := Case{Op: ops[int(op)%len(ops)], Tree: cat, Width: int(width%48) + 1, Height: int(op/8)%8 + 1, Prefix: "  ", IncludeFirst: op&64 != 0, PreDumb: op&128 != 0}
 		fz.Do(t, c)
 	})
+}
+
+// TestEnum: small-scope exhaustive part — every text over the alphabet {a, bold b, space, NBSP, newline}
+// up to a length bound, at every width 1..4, through Wrap, DumbWrap, Pad and Snip (heights 1..3).
+func TestEnum(t *testing.T) {
+	maxLen := 6
+	if os.Getenv("VERIF_TIER") == "thorough" {
+		maxLen = 8
+	}
+	var si, sn int
+	if _, err := fmt.Sscanf(os.Getenv("VERIF_SHARD"), "%d/%d", &si, &sn); err != nil || sn <= 0 {
+		si, sn = 0, 1
+	}
+	leaf := func(s string, bold bool) *vgen.SNode {
+		n := &vgen.SNode{Op: "text", Text: s}
+		if bold {
+			return &vgen.SNode{Op: "bold", Kids: []*vgen.SNode{n}}
+		}
+		return n
+	}
+	alphabet := []*vgen.SNode{leaf("a", false), leaf("b", true), leaf(" ", false), leaf(" ", false), leaf("\n", false)}
+	idx := 0
+	vrep.Each(t, "Enum", false, true, func(yield func(Case) bool) {
+		var rec func(kids []*vgen.SNode) bool
+		rec = func(kids []*vgen.SNode) bool {
+			if len(kids) > 0 {
+				idx++
+				if idx%sn == si {
+					tree := &vgen.SNode{Op: "cat", Kids: append([]*vgen.SNode{}, kids...)}
+					for w := 1; w <= 4; w++ {
+						for _, op := range []string{"wrap", "dumbwrap", "pad"} {
+							if !yield(Case{Op: op, Tree: tree, Width: w}) {
+								return false
+							}
+						}
+						for h := 1; h <= 3; h++ {
+							if !yield(Case{Op: "snip", Tree: tree, Width: w, Height: h}) {
+								return false
+							}
+						}
+					}
+				}
+			}
+			if len(kids) == maxLen {
+				return true
+			}
+			for _, a := range alphabet {
+				if !rec(append(kids, a)) {
+					return false
+				}
+			}
+			return true
+		}
+		rec(nil)
+	}, check)
 }
